@@ -1,0 +1,20 @@
+//go:build verif
+
+// Contracts for package pflag (the spf13/pflag source), checked by /verif/govc (see
+// /verif/DESIGN.md).  Comment-only file.
+
+package pflag
+
+//@ func pflag.stripTypePtr(t) (r)
+//@   props C12
+//@   safety C16
+//@   requires t != nil
+//@   ensures C12_one_pointer_level_is_removed: r == ite(kind(t) == Ptr, elem(t), t)
+
+// C12: each leaf's flag is named by its dialspflag tag, or else by the dials tag the flatten mangler wrote
+//@ func pflag.(*Set).mkname(s, sf) (name)
+//@   props C12
+//@   safety C16
+//@   flag panics_ok
+//@   ensures C12_source_specific_tag_wins: tagHasKey(sf.Tag, "dialspflag") ==> name == tagLookup(sf.Tag, "dialspflag")
+//@   ensures C12_else_the_dials_tag: !tagHasKey(sf.Tag, "dialspflag") ==> tagHasKey(sf.Tag, "dials") && name == tagLookup(sf.Tag, "dials")
